@@ -35,3 +35,22 @@ func RateSpec(mode string, perTick, tickMS, concurrency int) Spec {
 }
 
 var RateModes = []string{"constant", "staged", "ramp", "gaussian", "custom"}
+
+// FileSpanSpec returns a config-file spec with several short stages (users, users, constant) followed
+// by a long users stage, meant to be used with bodies that last longer than a stage so that
+// iterations are still in flight when the next stage's pool starts.
+func FileSpanSpec(concurrency int, limit uint64) Spec {
+	y := fmt.Sprintf("scenario: verifScenario\nlimits:\n  max-duration: 60s\n  concurrency: %d\n  max-iterations: %d\n  ignore-dropped: true\ndefault:\n  distribution: none\n  jitter: 0\nstages:\n"+
+		"- duration: 150ms\n  mode: users\n- duration: 150ms\n  mode: users\n- duration: 150ms\n  mode: constant\n  rate: %d/10ms\n- duration: 150ms\n  mode: users\n- duration: 40s\n  mode: users\n",
+		concurrency, limit, concurrency)
+	return Spec{Mode: "file", YAML: y, IgnoreDropped: true}
+}
+
+// SpanSleep is the body-duration pattern for FileSpanSpec: every third iteration outlives a stage.
+func SpanSleep(id uint64) {
+	if id%3 == 0 {
+		time.Sleep(170 * time.Millisecond)
+		return
+	}
+	time.Sleep(2 * time.Millisecond)
+}
